@@ -82,16 +82,16 @@ PROPS["C09"] = {
 
 
 PROPS["C05"] = {
-    "level_text": "Bounded model checking of the real CipherStream::poll_write / poll_read / set_encryption: for every acceptance schedule of up to 3 transport calls over 2 bytes (quick; 4 calls over 3 bytes thorough) and every read chunking of 3 bytes over 4 calls (accept any prefix incl. none, Pending) the bytes accepted by the transport equal one continuous stream encryption of the bytes reported written, and surfaced bytes the continuous decryption; pre-switch bytes untouched. That create_ciphers yields 8-bit CFB over aes::Aes128 with key = IV = secret is decided for all secrets with the real cfb8/aes crates, the AES block function stubbed by a model block cipher, against a reference CFB8 written on the raw block-cipher API.",
-    "level_note": "Trusted: Kani/CBMC; the schedule harnesses use a model cipher with CFB8's shape (16-bit symbolic state) because a symbolic AES key schedule does not finish; the AES block function itself is trusted (stubbed: symbolic AES does not finish); tokio ReadBuf is the synchronous model. Outside the bound: more than 3 bytes / 4 transport calls per harness, write errors from the transport.",
-    "assumptions": ["model cipher has the CFB8 shape: ks byte = f(state), state' = g(state, ciphertext byte)", "transport never returns an error (Pending / partial / full accept only)", "aes::soft::fixslice::{aes128_key_schedule, aes128_encrypt} stubbed by a model block cipher in cfb8_mode_key_is_iv"],
+    "level_text": "Bounded model checking of the real CipherStream::poll_write / poll_read / set_encryption: for every acceptance schedule of up to 3 transport calls over 2 bytes (quick; 4 calls over 3 bytes thorough) and every read chunking of 3 bytes over 4 calls (accept any prefix incl. none, Pending) the bytes accepted by the transport equal one continuous stream encryption of the bytes reported written, and surfaced bytes the continuous decryption; pre-switch bytes untouched.",
+    "level_note": "Trusted: Kani/CBMC; the schedule harnesses use a model cipher with CFB8's shape (16-bit symbolic state) because a symbolic AES key schedule does not finish; NOT decided: that create_ciphers builds AES-128-CFB8 with key = IV = secret (the engine-K harness on the real cfb8/aes crates with a stubbed block function does not finish in 40 min; symbolic AES does not finish at all) - only the 16-byte length check and the type-level choice cfb8::Encryptor<aes::Aes128> are covered; tokio ReadBuf is the synchronous model. Outside the bound: more than 3 bytes / 4 transport calls per harness, write errors from the transport.",
+    "assumptions": ["model cipher has the CFB8 shape: ks byte = f(state), state' = g(state, ciphertext byte)", "transport never returns an error (Pending / partial / full accept only)", "key = IV = secret and the AES block function are not decided (see level_note)"],
     "explanation": "schedule quantifier decided on the real poll functions with a symbolic acceptance script",
     "harnesses": [
         H("verif_c05::proofs::write_any_schedule_2x3", pkg="passage-protocol", desc="wire == Enc(one stream) of bytes reported written, for every accept/Pending script", bounds="2 plaintext bytes, 3 poll_write calls, script values 0..=255 (255 = Pending), 16-bit cipher state", timeout_s=1500, mem_gb=20),
         H("verif_c05::proofs::write_any_schedule_3x4", pkg="passage-protocol", tier="thorough", desc="same, larger", bounds="3 plaintext bytes, 4 poll_write calls", timeout_s=3000, mem_gb=24),
         H("verif_c05::proofs::read_any_schedule", pkg="passage-protocol", desc="surfaced == Dec(one stream) of bytes produced; pre-filled buffer prefix untouched", bounds="3 ciphertext bytes, 4 poll_read calls, 0 or 2 bytes already in ReadBuf", timeout_s=1500, mem_gb=20),
         H("verif_c05::proofs::switch_mid_connection", pkg="passage-protocol", desc="bytes before set_encryption untouched, stream starts at the switch", bounds="4 bytes, switch point 0..=4"),
-        H("c05k::proofs::cfb8_mode_key_is_iv", engine="k", tier="thorough", desc="create_ciphers + real cfb8 crate == reference 8-bit CFB on the aes::Aes128 block function with key = IV = secret; decryptor inverts", bounds="all 16-byte secrets, 2 symbolic plaintext bytes; AES block function replaced by a model block cipher (stub)", timeout_s=5400, mem_gb=40, no_native_replay="AES block function is stubbed by a model cipher under Kani"),
+        # c05k::proofs::cfb8_mode_key_is_iv (engine K, real cfb8+aes with stubbed block function) does not finish in 40 min: not registered
         H("verif_c05::proofs::create_ciphers_rejects_wrong_length", pkg="passage-protocol", desc="secret length != 16 refused", bounds="lengths {0,1,15,17,32}"),
     ],
 }
@@ -99,7 +99,7 @@ NOT_APPLICABLE.pop("C05", None)
 
 
 PROPS["C13"] = {
-    "level_text": "Bounded model checking of the real RateLimiter::new/enqueue including its f32 arithmetic: for every history of K calls (K=2 quick, 3 thorough) plus one-step harnesses from an arbitrary limiter state that extend independence-from-other-keys and cleanup-harmlessness to histories of any length over two keys with symbolic non-decreasing ns clock, limit 1..3 and window 1 ns..2^36 ns: per key at most `limit` admissions between window starts, at most 2*limit in any window-long interval, first/idle-2-windows attempts admitted, rejected attempts consume nothing, admitted attempts count one, tracked keys younger than 4 windows after every admitted call; decisions of one key identical with and without the other key's traffic (two runs of the same symbolic history).",
+    "level_text": "Bounded model checking of the real RateLimiter::new/enqueue including its f32 arithmetic: for every history of K calls (K=2 quick, 3 thorough) plus one-step harnesses from an arbitrary limiter state that extend independence-from-other-keys and cleanup-harmlessness to histories of any length over two keys with symbolic non-decreasing ns clock, limit 1..3 and window 1 ns..2^36 ns: per key at most `limit` admissions between window starts, at most 2*limit in any window-long interval, first/idle-2-windows attempts admitted, rejected attempts consume nothing, admitted attempts count one, tracked keys younger than 4 windows after every admitted call; independence of one key's decisions from other keys and from cleanup follows from the two one-step harnesses.",
     "level_note": "Trusted: Kani/CBMC incl. its IEEE-754 encoding; erasure rule R4 (HashMap -> association list with the same finite-map semantics) and the model clock (tokio::time::Instant = u64 ns read from a global); metrics empty. Outside the bound: window/2x bounds beyond 3 calls per history, limit > 3 (f32 counters saturate at 2^24: limits above 16 777 216 are not covered), windows above 68 s.",
     "assumptions": ["limit in 1..=3, duration in 1..=2^36 ns, gaps <= 2^38 ns, keys in {0,1}", "HashMap replaced by association list (R4)", "Instant::now() = model clock"],
     "explanation": "trace oracle in integer arithmetic over the decisions of the real enqueue()",
@@ -108,7 +108,7 @@ PROPS["C13"] = {
         H("verif_c13::proofs::step_other_key_untouched", pkg="passage-protocol", desc="one step from an arbitrary state: a call for key 1 leaves key 0's bucket unchanged or drops it only if two windows old (inductive: any history length)", bounds="arbitrary 2-bucket state, counts 0..3", timeout_s=1800, mem_gb=12),
         H("verif_c13::proofs::step_stale_bucket_equals_absent", pkg="passage-protocol", desc="one step: bucket two windows old == absent bucket (so cleanup cannot change decisions)", bounds="arbitrary 2-bucket state", timeout_s=1800, mem_gb=12),
         H("verif_c13::proofs::bounds_and_step_rules_k3", pkg="passage-protocol", tier="thorough", desc="same as k2 for 3 calls", bounds="3 calls, 2 keys", timeout_s=5400, mem_gb=20),
-        H("verif_c13::proofs::independence_k3", pkg="passage-protocol", tier="thorough", desc="decisions for key 0 equal with/without key 1 traffic", bounds="3 calls, 2 keys", timeout_s=5400, mem_gb=20),
+        # independence_k3 (two limiter instances x 3 calls) does not finish within 60 min: not registered; independence for any history length is decided by the two one-step harnesses above
     ],
 }
 NOT_APPLICABLE.pop("C13", None)
@@ -213,10 +213,9 @@ PROPS["C18"] = {
     "explanation": "",
     "harnesses": [
         H("verif_c18::proofs::meta_single_rule", pkg="passage-adapters", desc="one metadata rule (6 kinds) = reference predicate", bounds="1 target, 1 rule", timeout_s=1800, mem_gb=20),
-        H("verif_c18::proofs::meta_rules_and_semantics", pkg="passage-adapters", tier="thorough", desc="1-2 metadata rules (6 kinds) = AND of reference predicates, order preserved", bounds="2 targets, 2 rules", timeout_s=3600, mem_gb=40),
+        # meta_rules_and_semantics (2 rules x 2 targets) and chain_is_composition run out of memory (16 GB): not registered
         H("verif_c18::proofs::block_lists", pkg="passage-adapters", desc="blocked iff name list or id list matches", bounds="all list presence combinations, all UUIDs", timeout_s=1800, mem_gb=16),
         H("verif_c18::proofs::allow_lists", pkg="passage-adapters", desc="allowed iff some list matches", bounds="all list presence combinations", timeout_s=1800, mem_gb=16),
-        H("verif_c18::proofs::chain_is_composition", pkg="passage-adapters", tier="thorough", desc="Vec<filter> = sequential composition", bounds="2 filters", timeout_s=1800, mem_gb=16),
         H("verif_c18::proofs::strategies", pkg="passage-adapters", tier="thorough", desc="any = first; player fill = fullest strictly below max", bounds="2 targets, counts 0..9 / missing / non-numeric, max 0..10", timeout_s=3600, mem_gb=40),
     ],
 }
